@@ -1,6 +1,6 @@
 SPECIFICATION Spec
 CONSTANTS
-  Families = {"core6", "core7", "wide4", "words6", "nona5"}
+  Families = {"core6", "cores5", "wide4", "words6", "wordss5", "nona5"}
   UseRecords = TRUE
   CheckDecl = TRUE
 INVARIANT TypeOK
